@@ -88,7 +88,7 @@ def _schedule_guards(ctx, f, store_text: str, need: list[str], start_syms: set[s
     # the store that survives to normal return = last one that is not inside a raising branch
     found: dict[str, ast.If] = {}
     for iff in raising_ifs(f.node):
-        k = _classify_guard(f, iff.test, start_syms)
+        k = _classify_guard(f, expand(f, iff.test), start_syms)
         if k:
             found.setdefault(k, iff)
     exit_doms = dom.get(g.exit_return, set())
